@@ -57,7 +57,7 @@ def jobs(tier):
     for d in (1, 2, 3):
         add(S + 'cube', dict(d=d))
     for d in ((1, 2, 3) if thorough else (1, 2)):
-        add(S + 'ell_sample', dict(d=d), nra=300000)
+        add(S + 'ell_sample', dict(d=d), nra=180000)
     add(S + 'ell_compute', dict(d=1, n=2))
     add(S + 'ell_compute', dict(d=1, n=3))
     if thorough:
@@ -67,12 +67,11 @@ def jobs(tier):
         pats += [[False, True, False], [False, False, False],
                  [True, False, True]]
     for p in pats:
-        add(S + 'mix_sample', dict(pattern=p), nra=300000)
+        add(S + 'mix_sample', dict(pattern=p), nra=180000)
     add(N + 'mixture_compute', dict(d=1, n=2))
     add(N + 'mixture_compute', dict(d=2, n=3))
     if thorough:
         add(N + 'mixture_compute', dict(d=2, n=4), max_paths=20000)
-        add(N + 'mixture_compute', dict(d=3, n=4), max_paths=4000)
     for n_net in (0, 1, 2):
         add(N + 'neural_contains', dict(d=2, n_net=n_net))
     # union (members by contract)
@@ -100,8 +99,6 @@ def jobs(tier):
         block=B, max_paths=6000)
     if thorough:
         add(U + 'sample', dict(d=2, npm=3, sizes=[3, 3, 3], n=2, cache=1))
-        add(N + 'nb_sample', dict(d=2, n=1, cache=1, periodic=[1],
-                                  sizes=[3, 3]), block=B, max_paths=30000)
         add(N + 'nb_sample', dict(d=1, n=1, cache=0, pool=2, unroll=8,
                                   members_in_cube=True, open_uniform=True),
             block=B, max_paths=30000)
